@@ -24,6 +24,7 @@ type CoreNet struct {
 	maxEv   int
 	mangle  float64
 	mangled int
+	pred    map[string]interface{} // sched mode: the specification's prediction for the next step
 }
 
 type CoreOpts struct {
@@ -171,6 +172,9 @@ func (cn *CoreNet) deliver(a *CNode, fromNum int, fromID uint32, diff []*hg.Even
 	}
 	cn.blocks += len(o["blocks"].([]interface{}))
 	x := map[string]interface{}{"from": fromNum, "evs": sent, "ins": inserted, "new": created}
+	if cn.pred != nil {
+		x["pred"] = cn.pred
+	}
 	if a.fs != nil {
 		if fired := a.fs.TakeFired(); len(fired) > 0 {
 			if !a.lost {
